@@ -870,7 +870,8 @@ def o_trunc(E, unit, y, m, d, n):
     if unit == "month":
         return dn(E, y, m, one)
     if unit == "week":
-        return n - (doy(y, m, d) - 1) % 7
+        # 7-day blocks counted from 1 January of the date's own year
+        return n - (n - dn(E, y, one, one)) % 7
     if unit == "iso_week":
         return n - (wd + 5) % 7
     if unit == "month_start_week":
@@ -922,7 +923,7 @@ def o_round(E, unit, y, m, d, n, y00_up):
         nxt = z3.If(m == 12, z3.If(y == 9999, BIG, dn(E, y + 1, one, one)), dn(E, y, m + 1, one))
         return z3.If(d >= 16, nxt, dn(E, y, m, one))
     if unit == "week":
-        return week((doy(y, m, d) - 1) % 7)
+        return week((n - dn(E, y, one, one)) % 7)
     if unit == "iso_week":
         return week((wd + 5) % 7)
     if unit == "month_start_week":
